@@ -125,11 +125,10 @@ double Generator::GeneratorImpl::scalingFactor(const VariablePtr &variable) cons
 bool Generator::GeneratorImpl::isNegativeNumber(const AnalyserEquationAstPtr &ast) const
 {
     if (ast->type() == AnalyserEquationAst::Type::CN) {
-        double doubleValue;
+        double doubleValue = 0.0;
 
-        convertToDouble(ast->value(), doubleValue);
-
-        return doubleValue < 0.0;
+        return convertToDouble(ast->value(), doubleValue)
+               && (doubleValue < 0.0);
     }
 
     return false;
